@@ -61,6 +61,8 @@ func NewSys(meta Meta, seed int64, init any) (Sys, error) {
 		return newCodecSys(meta, seed, init)
 	case "tcp":
 		return newTCPSys(meta, seed, init)
+	case "clienttxn":
+		return newClientTxnSys(meta, seed, init)
 	case "framer", "bindreply":
 		return newFramerSys(meta, seed, init)
 	}
